@@ -191,6 +191,12 @@ def c_wb2csr(register, addressing="word"):
     h.ensure("ens.csr.once", z3.Implies(z3.And(ack, sel_any), z3.Or(n_acc == K(1, 2), acc) if not register else n_acc == K(1, 2)))
     h.ensure("ens.ack-only-if-req", z3.Implies(ack, rq))
     h.ensure("ens.ack1", z3.Implies(ack, z3.Not(b(h.n(wb.ack)))))
+    if register:
+        # the registered bridge drives the CSR address for ONE cycle (its strobe cycle): the address lines of several CSR masters are OR-ed by
+        # csr_bus.InterconnectShared, so an address left standing would be merged into another master's access
+        try: h.hint("adr!=0->WRITE-READ", z3.Implies(h.v(cs.adr) != K(0, 14), h.v(d.fsm.state) == K(d.fsm.encoding["WRITE-READ"], h.v(d.fsm.state).size())))
+        except Exception: pass
+        h.ensure_seq("ens.csr.adr-driven-for-one-cycle-only", lambda at: z3.Implies(at(h.v(cs.adr) != K(0, 14), 0), at(h.v(cs.adr) == K(0, 14), 1)))
     # read data: the CSR bus answers one cycle after the strobe; the bridge returns exactly that word with the ack
     p_re = h.prev("re", h.v(cs.re)); p2_re = h.prev("re2", p_re)
     h.ensure("ens.read-data", z3.Implies(ack, h.v(wb.dat_r) == h.v(cs.dat_r)))
